@@ -118,6 +118,9 @@ def gen_case(rng, tier):
         inp["repG"], inp["repH"] = mg.gen_repr(rng), mg.gen_repr(rng)
         inp["evs"] = [ev() for _ in range(rng.randint(1, 3))]
         inp["swap"] = rng.random() < 0.3
+        if rng.random() < 0.2:
+            inp["concurrent"] = rng.randint(2, 3)        # the same call from 2-3 threads of one process at once
+            inp["p_switch"] = rng.choice((2, 4, 8))
     return {"inputs": inp, "config": {"warn_filter": rng.choice(("always", "always", "default", "once", "ignore"))},
             "ops": []}
 
@@ -247,6 +250,44 @@ def run_case(case, sched):
                                     "unique-largest" if len(exacts) == 1 else "tied-largest",
                                     "bounds (%r, %r) do not bracket the distance %r computed for the largest "
                                     "connected component(s)" % (lb, ub, [0.5 * x for x in exacts]))
+        nconc = inp.get("concurrent")
+        if nconc:
+            if not isinstance(nconc, int) or not 2 <= nconc <= 4:
+                raise InvalidCase("concurrent")
+            import warnings
+            from sim import callers, simrandom
+            gh = mg.sut()
+            cargs = []
+            for _ in range(nconc):
+                a_, h_ = mg.materialize(G, inp["repG"]), mg.materialize(H, inp["repH"])      # objects of its own per caller
+                cargs.append((h_, a_) if inp.get("swap") else (a_, h_))
+            kw_ = {} if mso is None else {"mapping_sample_size_order": np.array(mso, dtype=float)}
+            e0 = (inp.get("evs") or [{"mode": "identity", "k": 0}])[0]
+            cstats = {}
+            with simrandom.rng_scope(sched, e0["mode"], e0["k"]):
+                with warnings.catch_warnings(record=True) as w_:
+                    warnings.simplefilter("always")
+                    outs = callers.run_concurrent(sched, [(lambda a=a: gh(*a, **kw_)) for a in cargs],
+                                                  int(inp.get("p_switch", 4)), cstats)
+            csite = "gromov_hausdorff.disconnected(concurrent)"
+            for ci, (st_, v_) in enumerate(outs):
+                if st_ != "ok":
+                    raise Violation("no-exception", csite, type(v_).__name__,
+                                    "caller #%d of %d concurrent callers: gromov_hausdorff raised %s: %s" % (ci, nconc, type(v_).__name__, str(v_)[:300]))
+                lb, ub = float(v_[0]), float(v_[1])
+                mg.check_bracket(lb, ub, None, csite, False, "(disconnected input, caller #%d of %d)" % (ci, nconc))
+                if all(x is not None for x in exacts) and not any(lb <= 0.5 * x <= ub for x in exacts):
+                    raise Violation("brackets-largest-component", csite, "unique-largest" if len(exacts) == 1 else "tied-largest",
+                                    "caller #%d of %d concurrent callers: bounds (%r, %r) do not bracket the distance %r of the "
+                                    "largest connected component(s)" % (ci, nconc, lb, ub, [0.5 * x for x in exacts]))
+            nw_ = len([x for x in w_ if "disconnected" in str(x.message)])
+            if nw_ < nconc:
+                raise Violation("disconnected=>warning", csite, "lost-warning",
+                                "%d concurrent calls each received a disconnected graph (filter 'always'); only %d "
+                                "'disconnected' warnings were emitted" % (nconc, nw_))
+            evals += nconc
+            probes["concurrent_callers"] = nconc
+            probes["thread_switches"] = cstats.get("thread_switches", 0)
         probes["tied_largest_component"] = int(len(exacts) > 1)
         probes["both_disconnected"] = int(ncg > 1 and nch > 1)
         probes["component_not_contiguous"] = 1
@@ -331,6 +372,14 @@ def shrink_candidates(case):
         if e["mode"] != "identity":
             c = copy.deepcopy(case)
             c["inputs"]["evs"][i] = {"mode": "identity", "k": 0}
+            yield c
+    if inp.get("concurrent"):
+        c = copy.deepcopy(case)
+        del c["inputs"]["concurrent"]
+        yield c
+        if inp["concurrent"] > 2:
+            c = copy.deepcopy(case)
+            c["inputs"]["concurrent"] = 2
             yield c
     if case["config"].get("warn_filter") != "always":
         c = copy.deepcopy(case)
